@@ -119,16 +119,39 @@ def r19_1(ctx, S, prog, crate):
         # rem_samples re-initialised on this edge
         rem = S.local_by_class("rem_samples")
         w = [bi2 for bi2, si2, s2 in b.stmts() if s2["k"] == "assign" and s2["p"]["l"] in rem and not s2["p"]["proj"] and bi2 in gt_blocks]
+        if not w:
+            # or after the two arms have joined, under a test that the mode just chosen is Collect:
+            # `current_mode = <new mode>; if current_mode.is_collect() { rem_samples = Some(..) }`
+            for bi2, si2, s2 in b.stmts():
+                if not (s2["k"] == "assign" and s2["p"]["l"] in rem and not s2["p"]["proj"] and bi2 in tune_blocks and
+                        any(z.kind == "variant" and z.a == "std::option::Option::Some" for z in b.prov._rv(s2["rv"], (), frozenset(), bi2, si2))):
+                    continue
+                for sb, t2 in b.switches():
+                    d2 = direct_place(b, t2["discr"])
+                    if d2 and d2[0] == "call" and d2[1].callee == "benchmark::BenchMode::is_collect" and sb in tune_blocks and \
+                            b.dominates(t2["otherwise"], bi2) and b.pred[t2["otherwise"]] == [sb] and all(b.reach([x_]) & {sb} for x_ in (le_t, gt_t)):
+                        w.append(bi2)
         ctx.check(len(w) == 1, "R19.1", [b.path, "counter-restarts-on-switch"], "the remaining-sample counter is not re-initialised when switching to Collect", b.where(gt_t))
     # both mode values are stored into the loop-carried mode variable that the next round's sample_size() reads
     for name in ("le", "gt"):
         for y, s in modes[name]:
             tgt = s["p"]["l"]
             stored = False
-            for s2 in b.blocks[y]["stmts"]:
-                if s2["k"] == "assign" and s2["rv"]["k"] == "use" and s2["rv"]["o"]["k"] == "move" and s2["rv"]["o"]["p"]["l"] == tgt:
-                    ssz = [c for c in b.live_calls() if c.callee == "benchmark::BenchMode::sample_size" and c.bb in S.loop["body"]]
-                    stored = bool(ssz) and S.root_local(ssz[0].args[0]["p"]["l"]) == s2["p"]["l"]
+            ssz = [c for c in b.live_calls() if c.callee == "benchmark::BenchMode::sample_size" and c.bb in S.loop["body"]]
+            mode_var = S.root_local(ssz[0].args[0]["p"]["l"]) if ssz else None
+            # the value built here travels to the loop-carried mode variable through plain moves (directly, or through the
+            # return slot of a spliced helper and the temporary that receives its result)
+            front, seen_ = {tgt}, set()
+            while front and mode_var is not None and not stored:
+                cur = front.pop()
+                seen_.add(cur)
+                for bi3, si3, s3 in b.stmts():
+                    if s3["k"] == "assign" and not s3["p"]["proj"] and s3["rv"]["k"] == "use" and s3["rv"]["o"]["k"] in ("move", "copy") and \
+                            not s3["rv"]["o"]["p"]["proj"] and s3["rv"]["o"]["p"]["l"] == cur and bi3 in b.reach([y]) | {y}:
+                        if s3["p"]["l"] == mode_var:
+                            stored = True
+                        elif s3["p"]["l"] not in seen_:
+                            front.add(s3["p"]["l"])
             ctx.check(stored, "R19.1", [b.path, "mode-stored", name], "the new mode is not stored into the variable the next round reads", b.where(y))
     return (tune_sw, tune_blocks, thr)
 
